@@ -143,6 +143,15 @@ def fork_run(fn, arg, timeout=60.0):
         status = 0
         try:
             os.close(r)
+            # the child never talks to the terminal: stdin is empty (a real input() sees EOF) and fd 1 is
+            # discarded (pedal's allow_real_io writes to the stdout object captured when pedal was imported)
+            try:
+                dn = os.open(os.devnull, os.O_RDWR)
+                os.dup2(dn, 0)
+                os.dup2(dn, 1)
+                sys.stdin = open(os.devnull)
+            except Exception:
+                pass
             # watchdog: SIGALRM dumps all stacks to the real stderr and then kills the child.
             # (faulthandler.dump_traceback_later must NOT be used here: if the parent had one
             # armed, re-arming after fork waits for a watchdog thread that does not exist.)
@@ -277,3 +286,52 @@ def diff_globals(before, sandbox=None, lazy_ok=True):
         else:
             tolerated.append(name)
     return problems, tolerated
+
+
+# ---------------------------------------------------------------------------- address-ordered sets
+
+class SeededSet(set):
+    """A set whose ITERATION ORDER is decided by the simulator instead of by object addresses.
+
+    pedal keeps the feedback classes whose attributes were overridden in a plain ``set`` and restores them in
+    iteration order; for classes that order is a function of their memory addresses, i.e. of the allocator's
+    history.  Putting this behind a seam makes the order a seeded, replayable choice."""
+
+    def __init__(self, seed=0):
+        super().__init__()
+        self._order = []
+        self._seed = seed
+
+    def add(self, item):
+        if item not in self:
+            self._order.append(item)
+        super().add(item)
+
+    def discard(self, item):
+        if item in self:
+            self._order.remove(item)
+        super().discard(item)
+
+    def remove(self, item):
+        super().remove(item)
+        self._order.remove(item)
+
+    def clear(self):
+        super().clear()
+        self._order = []
+
+    def __iter__(self):
+        import random
+        order = list(self._order)
+        random.Random(self._seed * 1000003 + len(order)).shuffle(order)
+        return iter(order)
+
+
+def install_seeded_sets(report, seed):
+    """Replace the address-ordered set of overridden feedback classes on ``report``."""
+    old = getattr(report, 'overridden_feedbacks', None)
+    new = SeededSet(seed)
+    if old:
+        for c in sorted(old, key=lambda c: (c.__module__, c.__qualname__)):
+            new.add(c)
+    report.overridden_feedbacks = new
